@@ -17,7 +17,9 @@
 (* capture quiescence, mate, stalemate).                                   *)
 (* AB / Quiesce / Run are an implementation-shaped transcript of           *)
 (* engine.rs (alpha_beta_search, quiesce, get_best_move) with a clock      *)
-(* that answers "expired" from its k-th query on.                          *)
+(* that answers "expired" from its k-th query on; every alpha_beta_search  *)
+(* node, every quiesce node, the head of the root loop and the root's      *)
+(* accept test are clock queries.                                          *)
 (***************************************************************************)
 EXTENDS Integers, Sequences, FiniteSets, TLC
 
@@ -64,8 +66,12 @@ Rem(T, st, n) == [st EXCEPT !.rep = Dec(@, T.key[n])]
 IsRep(repGE, rep, k) == IF repGE THEN Cnt(rep, k) >= 2 ELSE Cnt(rep, k) = 2
 
 RECURSIVE Quiesce(_, _, _, _, _), QLoop(_, _, _, _, _, _)
+\* (since the repair of the late-answer defect the capture search consults the clock at every node, like AB)
 Quiesce(T, n, a, b, st) ==
-  LET s1 == NodeInc(st)  sp == T.eval[n] IN
+  LET t == Clock(st) IN
+  IF t.exp THEN [v |-> NEGINF, st |-> t.st]
+  ELSE
+  LET s1 == NodeInc(t.st)  sp == T.eval[n] IN
   IF sp >= b THEN [v |-> b, st |-> s1]
   ELSE QLoop(T, T.caps[n], 1, IF a < sp THEN sp ELSE a, b, s1)
 QLoop(T, cs, i, a, b, st) ==
